@@ -1,5 +1,6 @@
 import RosuModel.Lemmas.FloatTrunc
 import RosuModel.Lemmas.FloatModelOfInt
+import RosuModel.Lemmas.FloatModelOrder
 namespace Rosu.FIE
 open Rosu Float.Model Float.Model.UnpackedFloat FMR FMO FTR
 
@@ -171,5 +172,234 @@ theorem sub_int_exact_float (a b : Int) (ha : a.natAbs < 2 ^ 53) (hb : b.natAbs 
         have e2 : (-((52 - b.natAbs.log2 : Nat) : Int)) = (b.natAbs.log2 : Int) - 52 := by omega
         simp only [e1, e2] at h
         exact h
+
+
+/-! ## bit patterns and comparisons of `Float.ofInt` values -/
+
+
+/-- the pattern of `Float.ofInt z`, `|z| < 2^53`: `+0.0` for `0`, otherwise sign bit + `FM.intPat |z|`. -/
+theorem bits_ofInt (z : Int) (hz : z.natAbs < 2 ^ 53) :
+    (Float.ofInt z).toBits.toNat =
+      if z = 0 then 0 else if z < 0 then 2 ^ 63 + FM.intPat z.natAbs else FM.intPat z.natAbs := by
+  rw [FM.float_ofInt_bits z hz]
+  unfold FCL.intBits
+  by_cases h0 : z = 0
+  · subst h0
+    have hr : roundRat fmt64 0 1 = 0 := by unfold roundRat; simp
+    simp [hr]
+  · rw [if_neg h0, FM.roundRat_int_eq (by omega) hz, sign64]
+
+theorem intPat_pos_lt {n : Nat} (hn : 0 < n) (hlt : n < 2 ^ 53) : 0 < FM.intPat n ∧ FM.intPat n < 2 ^ 63 := by
+  obtain ⟨_, _, f3, f4⟩ := FM.intPat_fields hn hlt
+  exact ⟨f3, by omega⟩
+
+/-- `FM.intPat` is strictly increasing on `(0, 2^53)`: the pattern order of positive doubles is their value order. -/
+theorem intPat_lt {n1 n2 : Nat} (h1 : 0 < n1) (h12 : n1 < n2) (h2 : n2 < 2 ^ 53) : FM.intPat n1 < FM.intPat n2 := by
+  obtain ⟨a1, a2, a3⟩ := FM.intM_bounds h1 (by omega : n1 < 2 ^ 53)
+  obtain ⟨b1, b2, b3⟩ := FM.intM_bounds (by omega : 0 < n2) h2
+  have l1 := (Nat.log2_eq_iff (n := n1) (k := n1.log2) (by omega)).mp rfl
+  have l2 := (Nat.log2_eq_iff (n := n2) (k := n2.log2) (by omega)).mp rfl
+  have hle : n1.log2 ≤ n2.log2 := by
+    apply Nat.le_of_not_lt
+    intro hc
+    have : 2 ^ (n2.log2 + 1) ≤ 2 ^ n1.log2 := Nat.pow_le_pow_right (by decide) hc
+    omega
+  unfold FM.intPat
+  rcases Nat.lt_or_eq_of_le hle with hl | hl
+  · generalize n1 * 2 ^ (52 - n1.log2) = m1 at *
+    generalize n2 * 2 ^ (52 - n2.log2) = m2 at *
+    generalize n1.log2 = L1 at *
+    generalize n2.log2 = L2 at *
+    omega
+  · rw [hl] at a1 a2 ⊢
+    have hm : n1 * 2 ^ (52 - n2.log2) < n2 * 2 ^ (52 - n2.log2) :=
+      Nat.mul_lt_mul_of_pos_right h12 (Nat.pow_pos (by decide))
+    generalize n1 * 2 ^ (52 - n2.log2) = m1 at *
+    generalize n2 * 2 ^ (52 - n2.log2) = m2 at *
+    omega
+
+/-- the signed magnitude of the pattern of `Float.ofInt z`. -/
+def ikey (z : Int) : Int :=
+  if z < 0 then -(FM.intPat z.natAbs : Int) else if z = 0 then 0 else (FM.intPat z.natAbs : Int)
+
+/-- the `total_cmp` key of `Float.ofInt z`. -/
+def tkey (z : Int) : Int :=
+  if z < 0 then -(FM.intPat z.natAbs : Int) - 1 else if z = 0 then 0 else (FM.intPat z.natAbs : Int)
+
+theorem ikey_mono {a b : Int} (ha : a.natAbs < 2 ^ 53) (hb : b.natAbs < 2 ^ 53) (h : a < b) : ikey a < ikey b := by
+  unfold ikey
+  by_cases ha0 : a < 0
+  · rw [if_pos ha0]
+    have pa := intPat_pos_lt (n := a.natAbs) (by omega) ha
+    by_cases hb0 : b < 0
+    · rw [if_pos hb0]
+      have := intPat_lt (n1 := b.natAbs) (n2 := a.natAbs) (by omega) (by omega) ha
+      omega
+    · rw [if_neg hb0]
+      by_cases hbz : b = 0
+      · rw [if_pos hbz]; omega
+      · rw [if_neg hbz]; omega
+  · rw [if_neg ha0, if_neg (by omega : ¬ b < 0), if_neg (by omega : ¬ b = 0)]
+    have pb := intPat_pos_lt (n := b.natAbs) (by omega) hb
+    by_cases haz : a = 0
+    · rw [if_pos haz]; omega
+    · rw [if_neg haz]
+      have := intPat_lt (n1 := a.natAbs) (n2 := b.natAbs) (by omega) (by omega) hb
+      omega
+
+theorem tkey_mono {a b : Int} (ha : a.natAbs < 2 ^ 53) (hb : b.natAbs < 2 ^ 53) (h : a < b) : tkey a < tkey b := by
+  unfold tkey
+  by_cases ha0 : a < 0
+  · rw [if_pos ha0]
+    have pa := intPat_pos_lt (n := a.natAbs) (by omega) ha
+    by_cases hb0 : b < 0
+    · rw [if_pos hb0]
+      have := intPat_lt (n1 := b.natAbs) (n2 := a.natAbs) (by omega) (by omega) ha
+      omega
+    · rw [if_neg hb0]
+      by_cases hbz : b = 0
+      · rw [if_pos hbz]; omega
+      · rw [if_neg hbz]; omega
+  · rw [if_neg ha0, if_neg (by omega : ¬ b < 0), if_neg (by omega : ¬ b = 0)]
+    have pb := intPat_pos_lt (n := b.natAbs) (by omega) hb
+    by_cases haz : a = 0
+    · rw [if_pos haz]; omega
+    · rw [if_neg haz]
+      have := intPat_lt (n1 := a.natAbs) (n2 := b.natAbs) (by omega) (by omega) hb
+      omega
+
+theorem ikey_lt_iff {a b : Int} (ha : a.natAbs < 2 ^ 53) (hb : b.natAbs < 2 ^ 53) : ikey a < ikey b ↔ a < b := by
+  constructor
+  · intro h
+    apply Int.lt_of_not_ge
+    intro hge
+    rcases Int.lt_or_eq_of_le hge with h1 | h1
+    · have := ikey_mono hb ha h1; omega
+    · subst h1; omega
+  · exact ikey_mono ha hb
+
+theorem tkey_lt_iff {a b : Int} (ha : a.natAbs < 2 ^ 53) (hb : b.natAbs < 2 ^ 53) : tkey a < tkey b ↔ a < b := by
+  constructor
+  · intro h
+    apply Int.lt_of_not_ge
+    intro hge
+    rcases Int.lt_or_eq_of_le hge with h1 | h1
+    · have := tkey_mono hb ha h1; omega
+    · subst h1; omega
+  · exact tkey_mono ha hb
+
+/-- **`Float.ofInt z` is never NaN** (`|z| < 2^53`). -/
+theorem isNaN_ofInt (z : Int) (hz : z.natAbs < 2 ^ 53) : (Float.ofInt z).isNaN = false := by
+  show (Float.ofInt z).toModel.unpack.isNaN = false
+  by_cases h0 : z = 0
+  · subst h0; rw [up_ofInt_zero]; rfl
+  · obtain ⟨hm, e⟩ := up_ofInt z h0 hz
+    rw [e]; rfl
+
+theorem fval_ofInt (z : Int) (hz : z.natAbs < 2 ^ 53) : FM.fval (Float.ofInt z) = ikey z := by
+  unfold FM.fval FM.sval ikey
+  rw [bits_ofInt z hz]
+  by_cases h0 : z = 0
+  · subst h0; decide
+  · rw [if_neg h0]
+    have p := intPat_pos_lt (n := z.natAbs) (by omega) hz
+    by_cases hneg : z < 0
+    · rw [if_pos hneg, if_pos hneg]
+      have e1 : (2 ^ 63 + FM.intPat z.natAbs) / 2 ^ 63 = 1 := by omega
+      have e2 : (2 ^ 63 + FM.intPat z.natAbs) % 2 ^ 63 = FM.intPat z.natAbs := by omega
+      rw [e1, e2]; rfl
+    · rw [if_neg hneg, if_neg hneg, if_neg h0]
+      have e1 : FM.intPat z.natAbs / 2 ^ 63 = 0 := by omega
+      have e2 : FM.intPat z.natAbs % 2 ^ 63 = FM.intPat z.natAbs := by omega
+      rw [e1, e2]; rfl
+
+theorem totalKey_ofInt (z : Int) (hz : z.natAbs < 2 ^ 53) : Scalar.totalKey (Float.ofInt z) = tkey z := by
+  show f64TotalKey (Float.ofInt z) = _
+  unfold f64TotalKey tkey
+  simp only []
+  rw [bits_ofInt z hz]
+  by_cases h0 : z = 0
+  · subst h0; decide
+  · rw [if_neg h0]
+    have p := intPat_pos_lt (n := z.natAbs) (by omega) hz
+    by_cases hneg : z < 0
+    · rw [if_pos hneg, if_pos hneg, if_neg (by omega)]
+      omega
+    · rw [if_neg hneg, if_neg hneg, if_pos (by omega), if_neg h0]
+
+/-! ### the comparisons of the driver's `Scalar Float` instance on integer values -/
+
+theorem scalar_lt_eq (x y : Float) : Scalar.lt x y = Float.lt x y := by
+  show decide (x.lt y = true) = _
+  rw [Bool.decide_eq_true]
+
+theorem scalar_le_eq (x y : Float) : Scalar.le x y = Float.le x y := by
+  show decide (x.le y = true) = _
+  rw [Bool.decide_eq_true]
+
+/-- **IEEE `<` on `Float.ofInt` values is `<` on the integers.** -/
+theorem lt_ofInt (a b : Int) (ha : a.natAbs < 2 ^ 53) (hb : b.natAbs < 2 ^ 53) :
+    Scalar.lt (Float.ofInt a) (Float.ofInt b) = decide (a < b) := by
+  rw [scalar_lt_eq, Bool.eq_iff_iff, FM.float_lt_iff _ _ (isNaN_ofInt a ha) (isNaN_ofInt b hb), fval_ofInt a ha,
+    fval_ofInt b hb, ikey_lt_iff ha hb, decide_eq_true_iff]
+
+/-- **IEEE `<=` on `Float.ofInt` values is `≤` on the integers.** -/
+theorem le_ofInt (a b : Int) (ha : a.natAbs < 2 ^ 53) (hb : b.natAbs < 2 ^ 53) :
+    Scalar.le (Float.ofInt a) (Float.ofInt b) = decide (a ≤ b) := by
+  rw [scalar_le_eq, Bool.eq_iff_iff, FM.float_le_iff _ _ (isNaN_ofInt a ha) (isNaN_ofInt b hb), fval_ofInt a ha,
+    fval_ofInt b hb, decide_eq_true_iff]
+  have := ikey_lt_iff hb ha
+  omega
+
+/-- **IEEE `==` on `Float.ofInt` values is `=` on the integers** (`Float.ofInt 0` is `+0.0`; `−0.0`, which would also compare
+equal to it, is not a `Float.ofInt` value). -/
+theorem eq_ofInt (a b : Int) (ha : a.natAbs < 2 ^ 53) (hb : b.natAbs < 2 ^ 53) :
+    Scalar.eq (Float.ofInt a) (Float.ofInt b) = decide (a = b) := by
+  show Float.beq _ _ = _
+  rw [Bool.eq_iff_iff, FM.float_beq_iff _ _ (isNaN_ofInt a ha) (isNaN_ofInt b hb), fval_ofInt a ha,
+    fval_ofInt b hb, decide_eq_true_iff]
+  have h1 := ikey_lt_iff hb ha
+  have h2 := ikey_lt_iff ha hb
+  constructor
+  · intro h; omega
+  · intro h; subst h; rfl
+
+theorem isNaN_ofInt_scalar (z : Int) (hz : z.natAbs < 2 ^ 53) : Scalar.isNaN (Float.ofInt z) = false :=
+  isNaN_ofInt z hz
+
+/-- **the `total_cmp` order of `Float.ofInt` values is the integer order** (strictly: `Float.ofInt 0` is `+0.0`, whose key `0`
+lies strictly between the keys of `Float.ofInt (-1)` and `Float.ofInt 1`; `−0.0`, with key `−1`, is not a `Float.ofInt` value). -/
+theorem totalKey_lt_ofInt (a b : Int) (ha : a.natAbs < 2 ^ 53) (hb : b.natAbs < 2 ^ 53) :
+    Scalar.totalKey (Float.ofInt a) < Scalar.totalKey (Float.ofInt b) ↔ a < b := by
+  rw [totalKey_ofInt a ha, totalKey_ofInt b hb, tkey_lt_iff ha hb]
+
+theorem totalKey_le_ofInt (a b : Int) (ha : a.natAbs < 2 ^ 53) (hb : b.natAbs < 2 ^ 53) :
+    Scalar.totalKey (Float.ofInt a) ≤ Scalar.totalKey (Float.ofInt b) ↔ a ≤ b := by
+  have := totalKey_lt_ofInt b a hb ha
+  omega
+
+theorem totalKey_eq_ofInt (a b : Int) (ha : a.natAbs < 2 ^ 53) (hb : b.natAbs < 2 ^ 53) :
+    Scalar.totalKey (Float.ofInt a) = Scalar.totalKey (Float.ofInt b) ↔ a = b := by
+  have h1 := totalKey_lt_ofInt b a hb ha
+  have h2 := totalKey_lt_ofInt a b ha hb
+  omega
+
+/-- `Float.ofInt` is injective below `2^53`. -/
+theorem ofInt_inj (a b : Int) (ha : a.natAbs < 2 ^ 53) (hb : b.natAbs < 2 ^ 53) (h : Float.ofInt a = Float.ofInt b) : a = b :=
+  (totalKey_eq_ofInt a b ha hb).mp (by rw [h])
+
+/-- the `Scalar` instance's `ofInt`, and its numeric literals, are `Float.ofInt`. -/
+theorem scalar_ofInt (z : Int) : (Scalar.ofInt z : Float) = Float.ofInt z := rfl
+theorem scalar_ofNat (n : Nat) : (OfNat.ofNat n : Float) = Float.ofInt (n : Int) := rfl
+
+/-- closed instances, by the kernel. -/
+example : Float.ofInt 4503599627370495 + Float.ofInt 4503599627370495 = Float.ofInt 9007199254740990 ∧
+    Float.ofInt 1000 + Float.ofInt (-1000) = Float.ofInt 0 ∧ (Float.ofInt 0).toBits = 0 ∧
+    Float.ofInt (-7) - Float.ofInt (-7) = Float.ofInt 0 ∧
+    Scalar.lt (Float.ofInt (-1)) (Float.ofInt 0) = true ∧ Scalar.totalKey (Float.ofInt 0) = 0 := by decide +kernel
+
+/-- the bound is sharp: `2^53 + 1` is not representable (`2^53 + 1` rounds to `2^53`). -/
+example : Float.ofInt 9007199254740992 + Float.ofInt 1 ≠ Float.ofInt 9007199254740993 ∨
+    Float.ofInt 9007199254740993 = Float.ofInt 9007199254740992 := by decide +kernel
 
 end Rosu.FIE
